@@ -184,6 +184,30 @@ func raceSignature(id, rep string) (string, bool) {
 	return id + "|data-race|" + strings.Join(frames, "+"), true
 }
 
+// readFuzzInput decodes a one-argument []byte / string corpus file of Go's native fuzzer.
+func readFuzzInput(path string) ([]byte, bool) {
+	b, err := os.ReadFile(path)
+	if err != nil {
+		return nil, false
+	}
+	lines := strings.SplitN(string(b), "\n", 2)
+	if len(lines) < 2 {
+		return nil, false
+	}
+	body := strings.TrimSpace(lines[1])
+	for _, pre := range []string{"[]byte(", "string("} {
+		if strings.HasPrefix(body, pre) && strings.HasSuffix(body, ")") {
+			q := body[len(pre) : len(body)-1]
+			s, err := strconv.Unquote(q)
+			if err != nil {
+				return nil, false
+			}
+			return []byte(s), true
+		}
+	}
+	return nil, false
+}
+
 func tail(s string, n int) string {
 	if len(s) <= n {
 		return s
@@ -425,6 +449,85 @@ func main() {
 		}
 	}
 	merged.NonTrivial = int64(len(distinct))
+
+	// ---- native fuzzing (thorough tier only) ----
+	if tier == "thorough" && replayPath == "" && len(cfg.Fuzz) > 0 && os.Getenv("VERIF_NOFUZZ") == "" {
+		ft := cfg.FuzzTime
+		if ft == 0 {
+			ft = 60 * time.Second
+		}
+		names := make([]string, 0, len(cfg.Fuzz))
+		for n := range cfg.Fuzz {
+			names = append(names, n)
+		}
+		sort.Strings(names)
+		for _, name := range names {
+			fdir := filepath.Join(scratch, "fuzz-"+name)
+			os.MkdirAll(fdir, 0o755)
+			e := append([]string{}, env...)
+			e = append(e, "VERIF_TIER=thorough", "VERIF_SCRATCH="+fdir)
+			// a separate binary with the fuzzer's coverage instrumentation (no -race)
+			fbin := filepath.Join(fdir, "fuzz.test")
+			fbuild := append([]string{"test", "-c", "-vet=off", "-fuzz", "^" + name + "$", "-o", fbin}, modArgs...)
+			if cfg.Tags != "" {
+				fbuild = append(fbuild, "-tags", cfg.Tags)
+			}
+			fbuild = append(fbuild, cfg.Pkg)
+			if bout, berr, _ := run(verifDir, env, 15*time.Minute, "go", fbuild...); berr != nil {
+				if incomplete == "" {
+					incomplete = "cannot build the fuzz binary for " + name + ": " + tail(bout, 1500)
+				}
+				continue
+			}
+			args := []string{"-test.run", "^$", "-test.fuzz", "^" + name + "$", "-test.fuzztime", ft.String(), "-test.fuzzcachedir", filepath.Join(fdir, "cache"), "-test.parallel", "12"}
+			flog, ferr, ftimed := run(fdir, e, ft+3*time.Minute, fbin, args...)
+			execs := int64(0)
+			for _, l := range strings.Split(flog, "\n") {
+				if i := strings.Index(l, "execs: "); i >= 0 {
+					var n int64
+					fmt.Sscanf(l[i+7:], "%d", &n)
+					if n > execs {
+						execs = n
+					}
+				}
+			}
+			merged.Extra["native_fuzz_execs_"+name] = float64(execs)
+			merged.Evaluations += execs
+			if ferr == nil {
+				continue
+			}
+			if ftimed {
+				if incomplete == "" {
+					incomplete = "native fuzz target " + name + " did not finish"
+				}
+				continue
+			}
+			// a crasher: "Failing input written to testdata/fuzz/<name>/<hash>"
+			crasher := ""
+			for _, l := range strings.Split(flog, "\n") {
+				if i := strings.Index(l, "Failing input written to "); i >= 0 {
+					crasher = strings.TrimSpace(l[i+len("Failing input written to "):])
+				}
+			}
+			data, ok := readFuzzInput(filepath.Join(fdir, crasher))
+			if crasher == "" || !ok {
+				if incomplete == "" {
+					incomplete = "native fuzz target " + name + " failed without a readable failing input:\n" + tail(flog, 2000)
+				}
+				continue
+			}
+			sig := id + "|native-fuzz|" + name
+			for _, l := range strings.Split(flog, "\n") {
+				l = strings.TrimSpace(l)
+				if strings.HasPrefix(l, id+"|") {
+					sig = l
+					break
+				}
+			}
+			cj, _ := json.Marshal(map[string]string{"kind": "fuzz", "src": string(data)})
+			merged.Failures = append(merged.Failures, failure{Property: id, Check: cfg.Fuzz[name], Sig: sig, Msg: "found by the native fuzz target " + name + "\n" + tail(flog, 2500), Case: cj})
+		}
+	}
 
 	// race-detector reports of -race builds
 	if cfg.RaceIsViolation {
